@@ -326,6 +326,63 @@ def rule_BD7(rep, prog):
                     "at offset 0 and a composite runs off its record list", sample={"call": c.loc})
 
 
+NUM_RECORDS_READERS = {"_dispatch_data_leaf": "n == 0 <=> leaf", "_dispatch_data_num_records": "n ?: 1 (a leaf counts as one record)"}
+
+
+def rule_SB8(rep, prog):
+    rid = rep.rule("C13-SB8", "record counting goes through the two helpers: the raw num_records field (0 for a leaf) is read only by _dispatch_data_leaf / "
+                   "_dispatch_data_num_records; the public apply entry points both return early for an empty object; a one-record object's record length equals "
+                   "its size", floor=5)
+    n = 0
+    for fn in prog.all_functions():
+        for l in fn.all_insts():
+            if l.op == "load" and "num_records" in prog.fields(l) and "dispatch_data_s" in (l.d["ptr"].get("sty") or ""):
+                n += 1
+                rep.saw(fn)
+                rep.classified(rid, l.origin, l.origin in NUM_RECORDS_READERS, l.loc, fn.name, "raw-num_records-read:%s" % l.origin,
+                               "%s reads dd->num_records directly: the field is 0 for a leaf, which every index / count computation must treat as ONE record "
+                               "(_dispatch_data_num_records); used raw, prepending a leaf to a fragmented object writes the copied records over the leaf's own "
+                               "record and leaves a NULL record behind" % l.origin, sample={"reader": l.origin})
+    # public apply entry points
+    for name in ("dispatch_data_apply", "dispatch_data_apply_f"):
+        fn = prog.fn(name, required=False)
+        if fn is None:
+            continue
+        rep.saw(fn)
+        for c in calls_named(fn, "_dispatch_data_apply"):
+            n += 1
+            cx = paths.dom_ctx(fn, c)
+            ok = False
+            for cid, tv in cx.truth.items():
+                t = fn.insts[cid]
+                if t.op == "icmp" and t.d["pred"] in ("eq", "ne") and t.ops[1][0] == "c" and t.ops[1][1] == 0 and tv == (t.d["pred"] == "ne"):
+                    l = fn.inst(t.ops[0])
+                    if l is not None and l.op == "load" and "size" in prog.fields(l) and root_ptr(fn, l.d["ptr"]["base"]) == ("a", 0):
+                        ok = True
+            rep.require(rid, ok, c.loc, name, "apply-on-empty-object:%s" % name,
+                        "%s walks the object without having excluded size == 0: the empty object has neither a buffer nor a record, so the walk reads "
+                        "records[0] past the end of the object and recurses into whatever is there" % name, sample={"fn": name})
+    # one-record constructors
+    for fn in prog.all_functions():
+        for a in calls_named(fn, "_dispatch_data_alloc"):
+            if not (a.ops[0][0] == "c" and a.ops[0][1] == 1):
+                continue
+            me = ("i", a.id)
+            szs = [st for st in fn.all_insts() if st.op == "store" and prog.fields(st) == frozenset(["size"]) and root_ptr(fn, st.d["ptr"]["base"]) == me]
+            lns = [st for st in fn.all_insts() if st.op == "store" and "length" in prog.fields(st) and root_ptr(fn, st.d["ptr"]["base"]) == me]
+            if not szs or not lns:
+                continue
+            n += 1
+            rep.saw(fn)
+            ok = all(tuple(x.ops[0][:2]) == tuple(y.ops[0][:2]) for x in szs for y in lns)
+            rep.require(rid, ok, lns[0].loc, fn.name, "one-record-length-differs-from-size:%s" % fn.name,
+                        "%s builds a one-record object whose record length is not the value stored as its size: the object reads correctly on its own (size is "
+                        "used) but once it is an operand of concat / subrange the copied record covers bytes outside the region" % fn.name,
+                        sample={"fn": fn.name, "alloc": a.loc})
+    if n < 5:
+        rep.unknown(rid, "fewer than 5 obligations formed (%d)" % n)
+
+
 def run(rep, tier="quick", srcdir=None, only=None):
     prog, units = load(UNITS, tier, srcdir)
     rep.units = units
@@ -344,6 +401,8 @@ def run(rep, tier="quick", srcdir=None, only=None):
         rule_AI6(rep, prog)
     if want("C13-BD7"):
         rule_BD7(rep, prog)
+    if want("C13-SB8"):
+        rule_SB8(rep, prog)
 
 
 MANIFEST = {
